@@ -39,3 +39,27 @@ Section FP.
   Lemma area_paints_tag g sph a : paints_tag (area_to_feature g sph a).
   Proof. intros q t blk. reflexivity. Qed.
 End FP.
+
+From WB Require Import Plume.
+Section PlumeP.
+  Context {F : Type} {NF : Num F}.
+
+  Lemma plume_paint_len g sph pl : paint_len (plume_to_feature g sph pl).
+  Proof.
+    intros q p t blk L. cbn [plume_to_feature ft_paint]. unfold plume_paint.
+    destruct p; cbn [fst length width] in *; try reflexivity.
+    - revert blk L. induction (pl_grains pl) as [|m ms IH]; intros blk L; [exact L|].
+      cbn [fold_left]. apply IH, grains_eval_length, L.
+    - destruct (fold_left _ (pl_vel pl) _) as [[vx vy] vz]. reflexivity.
+  Qed.
+
+  Lemma plume_no_random g sph pl : no_random (plume_to_feature g sph pl).
+  Proof.
+    intros q p t blk. cbn [plume_to_feature ft_paint]. unfold plume_paint.
+    destruct p; try reflexivity.
+    destruct (fold_left _ (pl_vel pl) _) as [[vx vy] vz]. reflexivity.
+  Qed.
+
+  Lemma plume_paints_tag g sph pl : paints_tag (plume_to_feature g sph pl).
+  Proof. intros q t blk. reflexivity. Qed.
+End PlumeP.
